@@ -37,6 +37,17 @@ func canonSx(v any) string {
 
 func zeroOf(a jsonapi.Attr) any { return jsonapi.GetZeroValue(a.Type, a.Nullable) }
 
+// ownRes: an application's own Resource implementation whose dynamic type cannot be compared
+// with == (a map with value receivers); every method is handed to the resource it carries.
+type ownRes map[string]jsonapi.Resource
+
+func (m ownRes) in() jsonapi.Resource           { return m["r"] }
+func (m ownRes) Attrs() map[string]jsonapi.Attr { return m.in().Attrs() }
+func (m ownRes) Rels() map[string]jsonapi.Rel   { return m.in().Rels() }
+func (m ownRes) GetType() jsonapi.Type          { return m.in().GetType() }
+func (m ownRes) Get(k string) any               { return m.in().Get(k) }
+func (m ownRes) Set(k string, v any)            { m.in().Set(k, v) }
+
 func suiteResource(r *Rng, n int, thorough bool, o *Out) {
 	for c := 0; c < n; c++ {
 		typ := genTyp(r, genTypeOpts{name: "t", maxAttrs: 5, maxRels: 3})
@@ -388,6 +399,16 @@ func suiteResource(r *Rng, n int, thorough bool, o *Out) {
 			}
 		}
 		b := mk(typ2, id2, vals2)
+		if r.chance(1, 8) {
+			// the helpers take any Resource, also an application's own implementation
+			if _, soft := a.(*jsonapi.SoftResource); soft {
+				a = ownRes{"r": a}
+				if _, softB := b.(*jsonapi.SoftResource); softB && r.bool() {
+					b = ownRes{"r": b}
+				}
+				o.stat("equal.own-implementation")
+			}
+		}
 		o.stat("equal." + differ)
 		var eab, eba, eaa, sab bool
 		p, _ := guard(func() {
